@@ -104,14 +104,29 @@ pub fn main(args: &[String]) {
     let mut mismatches = 0u64;
     let mut panics = 0u64;
     let mut samples: Vec<Value> = Vec::new();
+    // --fresh-threads: every case is also executed as the first call of a new thread (no thread-local
+    // history); a different outcome there is reported as the observation
+    let fresh = args.iter().any(|a| a == "--fresh-threads");
     for (i, c) in cases.iter().enumerate() {
-        let obs = match guarded(|| run_case(c)) {
+        let mut obs = match guarded(|| run_case(c)) {
             Outcome::Ok(v) => v,
             Outcome::Panic(msg) => {
                 panics += 1;
                 json!({"k": "panic", "msg": msg})
             }
         };
+        if fresh {
+            let cc = c.clone();
+            let o2 = std::thread::spawn(move || match guarded(|| run_case(&cc)) {
+                Outcome::Ok(v) => v,
+                Outcome::Panic(msg) => json!({"k": "panic", "msg": msg}),
+            })
+            .join()
+            .unwrap_or_else(|_| json!({"k": "panic", "msg": "thread"}));
+            if o2 != obs {
+                obs = json!({"k": "history-dependent", "in_sequence": obs, "on_a_fresh_thread": o2});
+            }
+        }
         if obs["k"] == "unknown-op" {
             eprintln!("unknown op in case {}", c);
             std::process::exit(2);
